@@ -26,6 +26,7 @@ RULE = (
     "statements whose operands are arbitrary numeric / string expressions (literals, variables, array elements, arithmetic, convertible functions). "
     "Non-trivial: >= 1 omitted optional operand or >= 1 non-literal operand; distinct by (form, operand shape classes)"
 )
+RULE += ' Also: every order of the two speed pokes (decimal / hex) in front of a SOUND; statements whose operands need 12-20 temporaries; several device statements on one line and inside THEN / ELSE branches; one case in two in a drawn layout; varied surroundings (add_suffix off, label filter on, string size 80, 40-column start). A refusal of a generated program counts as a violation.'
 ASSUMPTIONS = [
     "the role table of DESIGN.md appendix D (operand order of the Color BASIC statements, documented defaults); 'fg' is the symbolic value of display.hfore",
     "parameter positions come from the PARAM lines of the current ecb.b09, never from a frozen copy",
